@@ -356,6 +356,22 @@ def _m(spec, r):
     return True
 
 
+@mutation("undefined.matrix_column_only", "reject", "matCompUndefined")
+def _m(spec, r):
+    """an undefined compartment that appears only as a COLUMN heading of the transition matrix (every row label is valid), with a link in that column"""
+    i = Info(spec)
+    l = pick(r, [l for l in i.links if i.kind(l[1]) == "normal" and l[3] != [">"]])
+    if l is None:
+        return False
+    tr = spec["transitions"][l[0]]
+    tr["rows"] = list(tr.get("rows") or tr["comps"])
+    tr["comps"] = list(tr["comps"]) + ["zzundef"]
+    tr["cols_only"] = ["zzundef"]
+    code = i.new_par("undefcol", "rate", pt=i.pt(i.comps[l[1]]))
+    tr["cells"].append([l[1], "zzundef", code])
+    return True
+
+
 @mutation("undefined.matrix_parameter", "reject", "linkParUndefined")
 def _m(spec, r):
     i = Info(spec)
@@ -418,6 +434,36 @@ def _m(spec, r):
     return True
 
 
+from vlib.c18gen import RESERVED_KEYWORDS as _KW  # noqa: E402
+
+
+def _add_interaction(spec, i, code):
+    """a new interaction (Interactions sheet is created when the framework has none) with the given code name"""
+    inter = {"code": code, "display": i.fresh_display("Mutant mixing"), "default": 1}
+    if any("from" in x for x in (spec.get("interactions") or [])) or spec.get("poptypes"):
+        inter.update({"from": i.first, "to": i.first})
+    spec.setdefault("interactions", []).append(inter)
+
+
+@mutation("duplicate.code_name.interaction", "reject", "nameDuplicate")
+def _m(spec, r):
+    """an interaction whose code name is already the code name of a compartment / characteristic / parameter (the shadowed quantity is not used in any function,
+    so nothing but the name check can object)"""
+    i = Info(spec)
+    target = pick(r, [n for n in list(i.comps) + list(i.characs) + list(i.pars) if not i.used_by_function(n)])
+    if target is None:
+        return False
+    _add_interaction(spec, i, target)
+    return True
+
+
+@mutation("reserved.keyword.interaction", "reject", "nameKeyword")
+def _m(spec, r):
+    i = Info(spec)
+    _add_interaction(spec, i, r.choice(list(_KW)[:3]))
+    return True
+
+
 @mutation("duplicate.display_name", "reject", "displayDuplicate")
 def _m(spec, r):
     rows = spec["comps"] + spec["characs"] + spec["pars"]
@@ -437,8 +483,6 @@ def _reserved(code):
 
     return f
 
-
-from vlib.c18gen import RESERVED_KEYWORDS as _KW  # noqa: E402
 
 for _k, _kw in enumerate(_KW):
     mutation("reserved.keyword." + _kw, "reject", "nameKeyword", sparse=_k >= 3)(_reserved(_kw))
@@ -507,6 +551,31 @@ def _m(spec, r):
         return False
     i.pars[p]["format"] = "proportion"
     _clear_ts(i.pars[p])
+    return True
+
+
+@mutation("units.proportion_shared_with_compartment", "reject", "proportionNotJunction")
+def _m(spec, r):
+    """a junction's proportion parameter is ALSO put on a link out of an ordinary compartment whose row stands above the junction's row: every outflow of a
+    proportion parameter must leave a junction, whatever the order of the rows"""
+    i = Info(spec)
+    cands = []
+    for (mi, a, c, ps) in i.links:
+        if i.kind(a) != "junction" or ps == [">"]:
+            continue
+        tr = spec["transitions"][mi]
+        rows = list(tr.get("rows") or tr["comps"])
+        for p in ps:
+            if p in i.pars and i.pars[p].get("format") == "proportion":
+                for b in rows[: rows.index(a)] if a in rows else []:
+                    if b in i.comps and i.kind(b) == "normal" and p not in [q_ for (_, x, _, qs) in i.links if x == b for q_ in qs]:
+                        for d in rows:
+                            if d != b and d in i.comps and i.kind(d) in ("normal", "sink") and not i.has_cell(b, d):
+                                cands.append((mi, b, d, p))
+    pk = pick(r, cands)
+    if pk is None:
+        return False
+    i.cell(pk[0], pk[1], pk[2], pk[3])
     return True
 
 
